@@ -180,3 +180,21 @@ Theorem C02_tabulated_right_bath_is_right_bath :
   forall (K : Type) (Ko : RingOps K) (d : nat) (As Ws : list (T3 K)) (R : B3 K) (t : I3),
   at3 (rbath_m Ko d As Ws R) t = at3 (rbath Ko d As Ws R) t.
 Proof. exact rbath_m_eq. Qed.
+
+(* The right environments the sweeps build (right_baths: new_right_bath folded from the right end) are the dense
+   operator seen through the state: for every number of sites, all bond dimensions, every local dimension, over every
+   commutative ring with a ring involution, the entry (a, b, c) of the environment of a sub-chain is
+       sum over bra strings i and ket strings j of  conj(<i|A..>_a) * <i (x) j|W..>_b * <j|A..>_c
+   (ramp is the amplitude of the sub-chain entered at the given left bond index).  Together with cut-independence this
+   is why every effective Hamiltonian of a sweep is a projection of one and the same dense operator. *)
+From EV Require Import Model.MPSAlg Proofs.MPSInner Proofs.ExpectProofs.
+Theorem C02_right_environment_is_dense : forall (K : Type) (Ko : RingOps K),
+  ring_theory (k0 Ko) (k1 Ko) (kadd Ko) (kmul Ko) (ksub Ko) (kopp Ko) (@eq K) ->
+  (forall a b, kconj Ko (kadd Ko a b) = kadd Ko (kconj Ko a) (kconj Ko b)) ->
+  (forall a b, kconj Ko (kmul Ko a b) = kmul Ko (kconj Ko a) (kconj Ko b)) ->
+  kconj Ko (k0 Ko) = k0 Ko -> kconj Ko (k1 Ko) = k1 Ko ->
+  forall (d : nat) (As Ws : list (T3 K)) (a b c : nat), length Ws = length As ->
+  rbath Ko d As Ws (ones3 Ko) a b c =
+  sumL Ko (strings (repeat d (length As))) (fun i => sumL Ko (strings (repeat d (length As))) (fun j =>
+    kmul Ko (kmul Ko (kconj Ko (ramp K Ko As i a)) (ramp K Ko Ws (pair_idx d i j) b)) (ramp K Ko As j c))).
+Proof. exact rbath_strings. Qed.
